@@ -133,21 +133,23 @@ def choice_cover(a, size=None, replace=True, p=None):
 POOL_W = {4: [0.34, 0.33, 0.3299, 0.0001], 5: [0.26, 0.25, 0.25, 0.2399, 0.0001], 3: [0.5, 0.4999, 0.0001]}  # the last point is trimmed away
 
 
-def build_state(npool, n_particles, iter_val, d=1):
+def build_state(npool, n_particles, iter_val, d=1, last_beta=0.0):
     st = StateManager(n_dim=d)
     u = (np.arange(1, npool + 1, dtype=float) / (npool + 1)).reshape(npool, 1).repeat(d, axis=1)
-    st.update_current({"u": u, "x": u.copy(), "logl": -np.arange(npool, dtype=float), "beta": 0.0, "logz": 0.0})
+    st.update_current({"u": u, "x": u.copy(), "logl": -np.arange(npool, dtype=float), "beta": last_beta, "logz": 0.0})
     st.commit_current_to_history()
     st.update_current({"beta": 0.5})
     st._current["iter"] = iter_val
     return st, u
 
 
-def make_pipeline(cluster_every, npool, n_particles, kmax, first_iter_range=(1, 7)):
+def make_pipeline(cluster_every, npool, n_particles, kmax, first_iter_range=(1, 7), resumed=False):
+    """resumed=True: the steps are new objects (as after a resume from a checkpoint) but the restored history already ends in an
+    annealing iteration (beta > 0) - the clustering model has still never been fitted in this process."""
     W = np.array(POOL_W[npool])
 
     def run(ctx, iter_val, clusterer, fitd, resample_idx):
-        st, u = build_state(npool, n_particles, iter_val)
+        st, u = build_state(npool, n_particles, iter_val, last_beta=(0.25 if resumed else 0.0))
         tr = train_mod.Trainer(state=st, pbar=None, clusterer=clusterer, cluster_every=cluster_every, clustering=True,
                                TRIM_ESS=0.99, TRIM_BINS=50, DOF_FALLBACK=1e6)
         rs = resample_mod.Resampler(st, n_particles=n_particles, resample="mult", clusterer=clusterer, clustering=True)
@@ -253,10 +255,40 @@ def make_pipeline(cluster_every, npool, n_particles, kmax, first_iter_range=(1, 
                         smp.sample()
                         if smp.state.get_current("beta") >= 1.0:
                             break
+                    if resumed and smp.state.get_current("beta") < 1.0:
+                        raise RuntimeError("demo run did not finish")
+                    if resumed:
+                        # public API: checkpoint at an annealing iteration, resume in a new sampler
+                        import tempfile, shutil
+                        from pathlib import Path
+                        tmp = tempfile.mkdtemp(prefix="vf_c14_")
+                        try:
+                            mk = lambda: Sampler(lambda u_: u_, lambda x: -0.5 * np.sum(((x - 0.5) / 0.1) ** 2, axis=1), n_dim=2, n_particles=32,
+                                                 vectorize=True, clustering=True, cluster_every=cluster_every, random_state=0, output_dir=tmp)
+                            a = mk()
+                            a._core._initialize_fresh()
+                            saved = []
+                            for k_ in range(12):
+                                a.sample()
+                                if 0.0 < a.state.get_current("beta") < 1.0:
+                                    a.save_state(Path(tmp) / f"ck_{k_}.state")
+                                    saved.append(Path(tmp) / f"ck_{k_}.state")
+                                if a.state.get_current("beta") >= 1.0:
+                                    break
+                            for ck in saved:
+                                b = mk()
+                                b._core._initialize_from_resume(ck)
+                                b.sample(t0=b._core.t0)
+                        finally:
+                            shutil.rmtree(tmp, ignore_errors=True)
             except ValueError as e:
                 err = e
             finally:
                 np.random.set_state(s0)
+            if resumed:
+                return {"reproduced": err is not None and "fit" in str(err), "signature": "cadence:predict-before-fit-after-resume",
+                        "payload": {"cluster_every": cluster_every},
+                        "what": f"Sampler(clustering=True, cluster_every={cluster_every}): resuming a checkpoint written during annealing and calling sample() raised: {err}"}
             return {"reproduced": err is not None and "fit" in str(err), "signature": "cadence:predict-before-fit",
                     "payload": {"cluster_every": cluster_every}, "what": f"Sampler(clustering=True, cluster_every={cluster_every}).sample() raised: {err}"}
         # label clauses: real Trainer / Resampler / Mutator / ModeStatistics / kernel with scripted *functional* clusterers
@@ -303,7 +335,7 @@ def make_pipeline(cluster_every, npool, n_particles, kmax, first_iter_range=(1, 
                 "payload": {"problems": problems[:6]},
                 "what": "real Trainer/Resampler/Mutator with a scripted functional clusterer: " + "; ".join(f"[{n_}] {w_}" for n_, w_ in problems[:3])}
 
-    return Obligation(f"pipeline-every{cluster_every}-pool{npool}-n{n_particles}-K{kmax}", harness, replay=replay,
+    return Obligation(f"pipeline-every{cluster_every}-pool{npool}-n{n_particles}-K{kmax}" + ("-resumed" if resumed else ""), harness, replay=replay,
                       encodes=[train_mod.Trainer.run, resample_mod.Resampler.run, ModeStatistics.from_particles, ModeStatistics.__init__],
                       bounds=f"cluster_every={cluster_every}, symbolic first annealing iteration index in {list(first_iter_range)}, pool of {npool} points "
                              f"(one trimmed away), {n_particles} active particles, K <= {kmax} fitted clusters, every label pattern and resampling index",
@@ -333,8 +365,95 @@ def make_global(npool):
                       bounds=f"clustering off, pool {npool}, symbolic finite/inf dof from the fit", theory="QF_LIA")
 
 
+def make_mode_fit_draws(npts, kmax):
+    """ModeStatistics.from_particles under *every* outcome of the weighted resampling it performs before fitting: whatever indices
+    np.random.choice returns (any non-empty multiset of the positive-weight candidates), every label that occurs among the training
+    points gets a mode, and that mode is fitted on points of that label only."""
+    from vf.engine.core import PathInfeasible
+    from vf.engine.util import boolean
+    U = (np.arange(1, npts + 1, dtype=float) / (npts + 1)).reshape(npts, 1)
+    Wt = np.array([0.4, 0.3, 0.2, 0.0999, 0.0001][:npts])
+    Wt = Wt / Wt.sum()
+
+    def run(labels, choice):
+        fitd = FitDouble(None, inf_dof=[False] * 8)
+        with patched(modes_mod, fit_mvstud=fitd, np=NpProxy(random=type("R", (), {"choice": staticmethod(choice)})())):
+            ms = ModeStatistics.from_particles(U.copy(), Wt.copy(), np.asarray(labels))
+        return ms, fitd
+
+    def judge(labels, ms, fitd):
+        occurring = sorted(set(int(l) for l in labels))
+        probs = []
+        if int(ms.K) != len(occurring) or [int(x) for x in np.asarray(ms.labels)] != occurring:
+            probs.append(f"labels {occurring} occur among the training points but the modes are for {[int(x) for x in np.asarray(ms.labels)]} (K={int(ms.K)})")
+        else:
+            for j, r in enumerate(occurring):
+                members = frozenset(np.round(U[np.asarray(labels) == r, 0], 9).tolist())
+                if not fitd.fits[j] or not fitd.fits[j] <= members:
+                    probs.append(f"mode {j} (label {r}) was fitted on {sorted(fitd.fits[j])}, the points of that label are {sorted(members)}")
+        return probs
+
+    def harness(ctx: PathCtx):
+        labels = [integer(ctx, f"label{i}", lo=0, hi=kmax - 1).resolve(0, kmax - 1) for i in range(npts)]
+        ncall = {"n": 0}
+
+        def choice(a, size=None, replace=True, p=None):
+            n = a if isinstance(a, (int, np.integer)) else len(a)
+            c = ncall["n"]
+            ncall["n"] += 1
+            cand = [i for i in range(n) if p is None or p[i] > 0]
+            drawn = [i for i in cand if bool(boolean(ctx, f"drawn{c}_{i}"))]
+            if not drawn:
+                raise PathInfeasible()  # size >= 1 draws: at least one candidate is returned
+            idx = np.array(drawn, dtype=int)[np.arange(int(size)) % len(drawn)]
+            return idx if isinstance(a, (int, np.integer)) else np.asarray(a)[idx]
+        try:
+            ms, fitd = run(labels, choice)
+        except (IndexError, ValueError) as e:
+            ctx.fail("mode-fit-survives-every-resampling-outcome", f"{type(e).__name__}: {e}")
+            return None
+        ctx.ok("mode-fit-survives-every-resampling-outcome")
+        probs = judge(labels, ms, fitd)
+        ctx.check("every-occurring-label-has-a-mode-fitted-on-its-own-points", z3.BoolVal(not probs), detail=probs[:2])
+        return None
+
+    def replay(m, label, v):
+        labels = [int(m.get(f"label{i}", 0)) for i in range(npts)]
+        ncall = {"n": 0}
+
+        def choice(a, size=None, replace=True, p=None):
+            n = a if isinstance(a, (int, np.integer)) else len(a)
+            c = ncall["n"]
+            ncall["n"] += 1
+            cand = [i for i in range(n) if p is None or p[i] > 0]
+            drawn = [i for i in cand if bool(m.get(f"drawn{c}_{i}", False))] or cand[:1]
+            idx = np.array(drawn, dtype=int)[np.arange(int(size)) % len(drawn)]
+            return idx if isinstance(a, (int, np.integer)) else np.asarray(a)[idx]
+        real_choice = np.random.choice
+        np.random.choice = choice  # the real module attribute: from_particles runs unmodified apart from the fit double
+        try:
+            fitd = FitDouble(None, inf_dof=[False] * 8)
+            try:
+                with patched(modes_mod, fit_mvstud=fitd):
+                    ms = ModeStatistics.from_particles(U.copy(), Wt.copy(), np.asarray(labels))
+                probs = judge(labels, ms, fitd)
+            except (IndexError, ValueError) as e:
+                probs = [f"raised {type(e).__name__}: {e}"]
+        finally:
+            np.random.choice = real_choice
+        return {"reproduced": bool(probs), "signature": "from_particles:label-without-own-mode", "payload": {"labels": labels, "problems": probs[:3]},
+                "what": f"ModeStatistics.from_particles on {npts} points with labels {labels}, for one possible outcome of its internal resampling: {'; '.join(probs[:2])}"}
+
+    return Obligation(f"mode-fit-draws-n{npts}-K{kmax}", harness, replay=replay, encodes=[ModeStatistics.from_particles],
+                      bounds=f"{npts} weighted training points (weights 0.4 ... 1e-4), every label pattern with <= {kmax} labels, every non-empty set of "
+                             "candidates returned by each np.random.choice call",
+                      stubs=["np.random.choice -> any non-empty subset of the positive-probability candidates (symbolic)", "fit_mvstud -> tagged contract double"],
+                      theory="QF_LIA", max_paths=60000, max_decisions=400)
+
+
 def obligations(tier):
-    obs = [make_pipeline(1, 4, 2, 2), make_pipeline(3, 4, 1, 2), make_pipeline(5, 3, 1, 2), make_global(4)]
+    obs = [make_pipeline(1, 4, 2, 2), make_pipeline(3, 4, 1, 2), make_pipeline(5, 3, 1, 2), make_global(4), make_pipeline(2, 3, 1, 2, resumed=True), make_mode_fit_draws(4, 2)]
     if tier == "thorough":
-        obs += [make_pipeline(1, 5, 1, 3), make_pipeline(1, 4, 2, 3), make_pipeline(2, 4, 2, 2), make_pipeline(7, 4, 1, 2, first_iter_range=(1, 15))]
+        obs += [make_pipeline(1, 5, 1, 3), make_pipeline(1, 4, 2, 3), make_pipeline(2, 4, 2, 2), make_pipeline(7, 4, 1, 2, first_iter_range=(1, 15)),
+                make_pipeline(3, 4, 1, 2, resumed=True), make_mode_fit_draws(5, 2), make_mode_fit_draws(4, 3)]
     return obs
